@@ -362,6 +362,10 @@ func (e *Engine) builtin(st *State, fr *Frame, b *ssa.Builtin, cc *ssa.CallCommo
 		n := st.loadLeaf("chan|closes", []*Term{ch.t()}, Ref64)
 		st.storeLeaf("chan|closes", []*Term{ch.t()}, Add(n, BVConst(1, 64)))
 		return Val{types.NewTuple(), nil}
+	case "ssa:wrapnilchk":
+		// wrapper for a value-receiver method called through a pointer: panics on a nil pointer
+		e.nilCheck(st, args[0], in)
+		return args[0]
 	case "print", "println":
 		return Val{types.NewTuple(), nil}
 	case "recover":
